@@ -3,6 +3,7 @@ import Pyunicorn.Lemmas.AccessX
 import Pyunicorn.Lemmas.WhileSafe
 import Pyunicorn.Lemmas.Binary64
 import Pyunicorn.Lemmas.LineIdx
+import Pyunicorn.Lemmas.NsiIdx
 import Pyunicorn.Generated.StructC20
 import Pyunicorn.Generated.StructC20Pyx
 import Pyunicorn.Generated.StructC20Py
@@ -1980,3 +1981,53 @@ example : ¬ (∀ s ∈ tmi_run_sites 2 3 4 1 2 0 3 3 4 3, s.guard →
   simp [siteFine, tmiRunCnt] at this
 
 end Pyunicorn.Access
+
+/-! # Round 5: `_nsi_betweenness` — the breadth-first queue and the predecessor lists
+
+The largest group of data-dependent subscripts left to Cython's bounds check after round 4
+(`queue[queue_len]`, `flat_predecessors[offsets[l] + n_predecessors[l]]`, `flat_neighbors[l_index]`,
+`distances_to_j[l]`, `betweenness_to_j[flat_predecessors[fi]]`, …).  `Model/NsiIdx.lean` evaluates
+every subscript of the kernel as a checked read / write (`none` = IndexError); `csrOK` is the
+contract on what `Network._nsi_betweenness` passes, stated on the offsets the kernel computes. -/
+namespace Pyunicorn.NsiIdx
+
+/-- **`_nsi_betweenness` raises no IndexError** — every subscript it evaluates (the breadth-first
+queue, the predecessor lists, the distance / multiplicity / betweenness arrays, the caller's `w`,
+`k`, `flat_neighbors`, `is_source`) is inside its array — for every CSR adjacency that satisfies the
+contract `csrOK`, for all `N`, all graphs and all target lists -/
+theorem nsiBetwIdx_ok (N : Nat) (k nbr : List Nat) (wlen slen : Nat) (targets : List Nat)
+    (h : csrOK N k nbr wlen slen targets = true) :
+    nsiBetwIdx N k nbr wlen slen targets = some () := by
+  unfold csrOK at h
+  split at h
+  · cases h
+  · rename_i off hoff
+    simp only [Bool.and_eq_true, decide_eq_true_eq, List.all_eq_true, List.mem_range] at h
+    obtain ⟨⟨⟨⟨⟨⟨⟨h1, h2⟩, h3⟩, h4⟩, h5⟩, h6⟩, h7⟩, h8⟩ := h
+    have hc : COK ⟨N, off, k, nbr, wlen⟩ := ⟨h1, h2, h3, h6, h7, h8⟩
+    simp only [nsiBetwIdx, hoff, Option.bind_eq_bind, Option.bind_some]
+    apply allOk_ok
+    intro j hj
+    exact target_ok ⟨N, off, k, nbr, wlen⟩ hc slen j h4 (h5 j hj)
+
+/-- in particular no outcome `none` (IndexError) under the contract -/
+theorem nsiBetwIdx_never_raises (N : Nat) (k nbr : List Nat) (wlen slen : Nat) (targets : List Nat)
+    (h : csrOK N k nbr wlen slen targets = true) :
+    nsiBetwIdx N k nbr wlen slen targets ≠ none := by
+  rw [nsiBetwIdx_ok N k nbr wlen slen targets h]; simp
+
+/-- non-vacuity: the path 0 – 1 – 2 and the triangle with a pendant node satisfy the contract and
+the model runs through; sharpness: a directed link into a node without out-links (`0 → 2`) makes
+`flat_predecessors[offsets[2] + 0]` leave the array, a neighbour entry `N`, a degree entry that
+overstates a row, a target `N` and a weight array one short raise as well — and fail the contract -/
+example : csrOK 3 [1, 2, 1] [1, 0, 2, 1] 3 3 [0, 1, 2] = true
+    ∧ nsiBetwIdx 3 [1, 2, 1] [1, 0, 2, 1] 3 3 [0, 1, 2] = some ()
+    ∧ csrOK 4 [2, 2, 3, 1] [1, 2, 0, 2, 0, 1, 3, 2] 4 4 [3, 0] = true
+    ∧ nsiBetwIdx 4 [2, 2, 3, 1] [1, 2, 0, 2, 0, 1, 3, 2] 4 4 [3, 0] = some () := by decide +kernel
+example : nsiBetwIdx 3 [1, 0, 0] [2] 3 3 [0] = none ∧ csrOK 3 [1, 0, 0] [2] 3 3 [0] = false
+    ∧ nsiBetwIdx 3 [1, 2, 1] [1, 0, 3, 1] 3 3 [0] = none
+    ∧ nsiBetwIdx 3 [1, 2, 2] [1, 0, 2, 1] 3 3 [0] = none
+    ∧ nsiBetwIdx 3 [1, 2, 1] [1, 0, 2, 1] 3 3 [3] = none
+    ∧ nsiBetwIdx 3 [1, 2, 1] [1, 0, 2, 1] 2 3 [0] = none := by decide +kernel
+
+end Pyunicorn.NsiIdx
